@@ -259,6 +259,23 @@ fn search<T: Sx, B: Bz<T>>(steps: u16, maxdec: usize) {
     }
 }
 
+/// `binary_search_point` called directly with a caller-supplied broad phase (none, or one interior sample): the end
+/// point is always a candidate, whatever `coarse` yields.
+fn search_direct<T: Sx, B: Bz<T>>(which: usize, maxdec: usize) {
+    set_max_decisions(maxdec);
+    let p = crate::scen::c14::sym_pts::<T>("p", B::DEG + 1, B::DIM);
+    let q: Vec<T> = (0..B::DIM).map(|j| var::<T>(&format!("q{}", j))).collect();
+    let c = B::of(&p);
+    let coarse: Vec<(T, Vec<T>)> = if which == 0 { vec![] } else { vec![(T::q(1, 2), bernstein(&p, T::q(1, 2)))] };
+    let (t, pt) = c.search(&q, coarse.clone(), T::q(1, 4), T::q(1, 4)); // one halving: the broad phase is the subject here
+    let d2 = |a: &[T]| (0..a.len()).fold(k::<T>(0), |s, i| s + (a[i] - q[i]) * (a[i] - q[i]));
+    goal("returned point = evaluate(returned parameter)", and((0..B::DIM).map(|j| eq(pt[j], bernstein(&p, t)[j])).collect()));
+    goal("no farther than the end point", le(d2(&pt), d2(&p[B::DEG])));
+    for (i, (_, s)) in coarse.iter().enumerate() {
+        goal(&format!("no farther than coarse sample {}", i), le(d2(&pt), d2(s)));
+    }
+}
+
 pub fn register(v: &mut Vec<Scenario>) {
     macro_rules! per { ($($B:ident $dim:expr, $deg:expr);+) => { $(
         for axis in 0..$dim {
@@ -290,6 +307,9 @@ pub fn register(v: &mut Vec<Scenario>) {
         }
         for steps in [1u16, 2] {
             scen!(v, "C15", if $dim == 2 && $deg == 2 && steps == 1 { 0 } else { 1 }, format!("c15/search/{}/steps{}", stringify!($B), steps), ["binary_search_point_by_steps", "binary_search_point"], search::<$B<T_>>(steps, 9 + steps as usize));
+        }
+        for which in 0..2usize {
+            scen!(v, "C15", if $dim == 2 && $deg == 2 { 0 } else { 1 }, format!("c15/search_direct/{}/{}", stringify!($B), ["no_coarse_sample", "one_interior_sample"][which]), ["binary_search_point"], search_direct::<$B<T_>>(which, 8));
         }
         for steps in [1u16, 2, 3] {
             scen!(v, "C15", 1, format!("c15/searchT/{}/steps{}", stringify!($B), steps), ["binary_search_point_by_steps", "binary_search_point"], search::<$B<T_>>(steps, 11 + steps as usize));
